@@ -102,6 +102,7 @@ type FnCtx struct {
 	env      map[string]Term
 	obls     *[]*Obligation
 	loopOrd  map[ast.Node]int
+	curCallExprs []ast.Expr // argument expressions of the call being evaluated (for `invokes`)
 	captured map[*types.Var]bool // free variables of a closure under contract: postconditions see their final values
 	overflow bool
 	safety   bool
